@@ -51,8 +51,35 @@ def run(ctx, pool):
     jobs = [(ctx.seed * 613 + j, ctx.n(1, 20)) for j in range(ctx.n(32, 64))]
     for traces in core.parallel("harness.rec_process", "nicurve_job", jobs):
         tw.traces.extend(traces)
+    # leg C: every run shape of the curve machine's model-checking instance (N, initial permeances, direction of the grid, outcome)
+    # gets at least one execution of the real curve model with that outcome
+    import json
+    import os
+    from .. import tlc
+    shape_file = os.path.join(ctx.work, "nishapes.ndjson")
+    r = tlc.run("MC_NICurveQ.tla", "MC_NICurveQ.cfg", workers=4, env={"SHAPE_FILE": shape_file}, workdir=ctx.work)
+    if not r.ok:
+        raise core.MachineryFailure("MC_NICurveQ (shape export) failed: %s %s" % (r.violated_names(), r.errors[:2]))
+    shapes = [json.loads(x) for x in open(shape_file) if x.strip()]
+    for traces in core.parallel("harness.rec_process", "nicurve_shape_job", [(ctx.seed * 7621 + j, shapes[j::8]) for j in range(8)]):
+        tw.traces.extend(traces)
     res = core.validate_traces(None, ctx, tw, pool, "Trace_Process.tla", "Trace_Process_C05.cfg")
-    return pc.finish(res, tw, stats, CLAUSES, "non-ideal isothermal / non-isothermal process runs (N <= 8) and non-ideal diffusion curves "
+    covered = set()
+    for tr in tw.traces:
+        st = tr[0]
+        if st.get("ev") == "NIStart" and "dx" in st:
+            covered.add((min(st["N"], 3), bool(st.get("P0given")), st["dx"] > 0, st["outcome"]))
+    want = {(q["N"], q["hasInit"], q["up"], q["outcome"]) for q in shapes}
+    res.setdefault("failures", [])
+    if len(want) != 24:
+        res["failures"].append("expected 24 curve shapes from TLC, got %d" % len(want))
+    if len(want - covered) > 2:
+        res["failures"].append("curve shapes of the specification without an execution of the real code: %s" % sorted(want - covered)[:4])
+    shape_cov = {"spec_curve_shapes": len(want), "spec_curve_shapes_covered": len(want & covered),
+                 "spec_curve_shapes_uncovered": [list(q) for q in sorted(want - covered)]}
+    res = pc.finish(res, tw, stats, CLAUSES, "non-ideal isothermal / non-isothermal process runs (N <= 8) and non-ideal diffusion curves "
                      "(2-6 steps) on synthetic curve sets: single curve at the modelling temperature or at another one, or 2-3 "
                      "temperatures; with/without initial permeances (any unit); all permeate modes; self-cooling or programme",
                      required=("Start", "State", "NIStart", "NIPoint"))
+    res["coverage"].update(shape_cov)
+    return res
